@@ -165,3 +165,11 @@ mod test {
         assert!(!r.is_partial_match("foo"));
     }
 }
+
+/// Verification hooks. Compiled only with `--cfg fclones_verif`.
+#[cfg(fclones_verif)]
+pub mod verif {
+    pub fn get_fixed_prefix(s: &str) -> (String, Option<usize>) {
+        super::Regex::get_fixed_prefix(s)
+    }
+}
